@@ -19,7 +19,7 @@
    the original this is "mutating the copy does not change the original", with dB the copy the converse.
    Not proved here: that deepCopy never throws on such a source; "hence byte-identical XML" relies on C01. *)
 From Adm Require Import Heap.Exec Heap.More gen.PlansGen Heap.PlanChecks Heap.Frame Heap.Copy Heap.WF Heap.Sync Heap.Remove
-  Heap.WFExt Heap.CopyRefs Heap.CopyInv Heap.Joint Heap.Acyclic Heap.Local.
+  Heap.WFExt Heap.CopyRefs Heap.CopyInv Heap.Joint Heap.Acyclic Heap.Local Heap.LocalExt.
 
 Theorem C09_copy_keeps_everything_but_links : forall e,
   ekind (copy_of e) = ekind e /\ ehoa (copy_of e) = ehoa e /\ eid (copy_of e) = eid e /\ etd (copy_of e) = etd e /\
@@ -131,6 +131,30 @@ Theorem C09_independence_vocabulary : forall dB (B : positive -> Prop) o,
   end.
 Proof. intros dB B o. destruct o; simpl; tauto. Qed.
 Print Assumptions C09_independence_vocabulary.
+
+(* the same for the extended calls - block additions, times, copy(), Document::deepCopy (of either side, into a document
+   other than dB), deepCopyTo into another document, updateBlockFormatDurations of another document, tracing; reassignIds
+   is not covered (it writes channel formats reached through references) *)
+Theorem C09_mutations_leave_the_other_side_unchanged_extended : forall dB s0 ops, WF s0 -> Sync s0 ->
+  Forall (xsubj_ok dB (in_doc s0 dB)) ops ->
+  (forall y, parent s0 y = Some dB -> get_elem (xrun gen_plans ops s0) y = get_elem s0 y) /\
+  get_doc (xrun gen_plans ops s0) dB = get_doc s0 dB.
+Proof. exact (other_side_unchanged_ext gen_plans). Qed.
+Print Assumptions C09_mutations_leave_the_other_side_unchanged_extended.
+
+Theorem C09_independence_vocabulary_extended : forall dB (B : positive -> Prop) o,
+  xsubj_ok dB B o <->
+  match o with
+  | XBase b => subj_ok dB B b
+  | XAddBlock h _ _ _ _ | XSetTimes h _ _ => ~ B h
+  | XCopy _ _ | XTrace _ => True
+  | XDeepCopy _ dnew _ => dnew <> dB
+  | XDeepCopyTo _ ddst _ => ddst <> dB
+  | XFixDur d _ => d <> dB
+  | XReassign _ => False
+  end.
+Proof. intros dB B o. destruct o; simpl; tauto. Qed.
+Print Assumptions C09_independence_vocabulary_extended.
 
 (* after a deepCopy: calls on the copy (its document dnew, its elements, new elements) leave the original as it is *)
 Theorem C09_copy_and_original_are_independent : forall d dnew base s s' u ops,
